@@ -1,4 +1,5 @@
 import Gallia.Lib.Bytes
+import Gallia.Model.ConfigFile
 /-
   C18 — configuration resolution.
 
@@ -10,14 +11,18 @@ import Gallia.Lib.Bytes
     pydantic        a key missing from the namespace takes the field default, a required field without any
                     provider is an error                                                         (`resolve`, `effective`)
     command/config.py  the before-validators / serialisers of the special field types            (`parse`, `dump`, `load`)
-    argparse/parser.py `_validation_error`: the message names the provider of the rejected value (`effective` error side)
+    pydantic-core      lax `str -> int` of plain `int` fields (`clean_int_str` + JSON integer syntax)  (`parseLaxInt`)
+    argparse/parser.py `_validation_error`: the message names the provider whose value equals the rejected
+                    input, the command line otherwise                                            (`blame`, `reported`)
+    pydantic_argparse `PydanticField.arg_default`: a positional argument gets no argparse default (`effective`)
+    command/base.py, db/handler.py, commands/script/rerun.py: `model_dump_json()` into META.json / run_meta and
+                    `CONFIG_TYPE(**json.loads(...))`                                              (`store`, `reload`)
+  The file layer (documents, key lookup, discovery, template) is in `Model/ConfigFile.lean`.
 
   Strings are `List Char` in the model (the driver converts), bytes are `List UInt8`.
 -/
 namespace Gallia.Config
 open Gallia
-
-abbrev Str := List Char
 
 inductive Source | cli | env | file | dflt
   deriving DecidableEq, Repr
@@ -44,12 +49,6 @@ def resolve {α} (cli env file dflt : Option α) : Option (Source × α) :=
 
 /-! ### values -/
 
-/-- one element of a list-valued provider (argparse `nargs=*` token, TOML array element) -/
-inductive Atom
-  | str (s : Str)
-  | int (i : Int)
-  deriving DecidableEq, Repr
-
 /-- what a provider hands to the validators -/
 inductive Raw
   | atom (a : Atom)                 -- CLI token / environment string / TOML string or integer
@@ -67,6 +66,8 @@ inductive Val
   | bytes (b : Bytes)
   | ints (l : List Int)
   | map (m : List (Int × Option (List Int)))
+  | tuples (l : List (List Int))          -- list[tuple[int, ...]]
+  | dict (t : Tree)                       -- dict[str, Any]
   deriving DecidableEq, Repr
 
 inductive Kind
@@ -81,16 +82,33 @@ inductive Kind
   | enum (members : List (Str × Int))    -- EnumArg[E] / AutoLiteral[Literal[E.a, ...]]: (name, value) of the admitted members
   | choice (cs : List Str)               -- Literal["a", "b", ...]
   | autoInts       -- list[AutoInt]
+  | hexInt         -- HexInt: `int(x, 16)`
+  | tuples (n : Nat)                     -- list[Annotated[tuple[int, ... n times], BeforeValidator(parse_definitions n)]]
+  | enums (members : List (Str × Int))   -- list[EnumArg[E]]
+  | dict           -- dict[str, Any]
   deriving DecidableEq, Repr
+
+/-- the field kinds without their parameters (what the regenerated option table says about an option) -/
+inductive KindTag
+  | bool | int | autoInt | hexInt | text | opaque | hexBytes | ranges | ranges2d | enum | choice | autoInts
+  | tuples | enums | dict
+  | unmodelled        -- an annotation the model has no kind for
+  deriving DecidableEq, Repr
+
+def Kind.tag : Kind → KindTag
+  | .bool => .bool | .int => .int | .autoInt => .autoInt | .hexInt => .hexInt | .text => .text | .opaque => .opaque
+  | .hexBytes => .hexBytes | .ranges => .ranges | .ranges2d => .ranges2d | .enum _ => .enum | .choice _ => .choice
+  | .autoInts => .autoInts | .tuples _ => .tuples | .enums _ => .enums | .dict => .dict
 
 structure Field where
   kind : Kind
   optional : Bool := false
   const : Option Val := none
+  positional : Bool := false
   deriving DecidableEq, Repr
 
 inductive Msg
-  | notInt | notBool | notHex | notRange | notMember | notText | wrongShape | rejected | noConst
+  | notInt | notBool | notHex | notRange | notMember | notText | wrongShape | rejected | noConst | wrongCount
   deriving DecidableEq, Repr
 
 /-! ### scalar codecs -/
@@ -145,6 +163,85 @@ def parseDecMag (s : Str) : Option Nat :=
 /-- pydantic's lax str -> int on plain decimal text (the only text the harness offers as valid) -/
 def parseDecInt (s : Str) : Option Int := withSign parseDecMag s
 
+/-! #### pydantic's lax `str -> int` (plain `int` fields): pydantic-core `clean_int_str`, then JSON integer syntax -/
+
+def isNzDigit (c : Char) : Bool := c.isDigit && c != '0'
+
+/-- `strip_leading_zeros` after the first `0`: `prev` is the character just skipped -/
+def skipZeros (prev : Char) : Str → Option Str
+  | [] => some [prev]                           -- all zeros (or underscores): the last character stays
+  | c :: t =>
+    if c == '0' || c == '_' then skipZeros c t
+    else if isNzDigit c || c == '-' then some (c :: t)
+    else if c == '.' then some (prev :: c :: t)
+    else none
+
+def stripLeadingZeros : Str → Option Str
+  | [] => none
+  | c :: t =>
+    if c == '0' then skipZeros c t
+    else if isNzDigit c || c == '-' then some (c :: t)
+    else none
+
+/-- `strip_decimal_zeros`: `.0`, `.00`, ... after the number is dropped (a bare `.` is not) -/
+def stripDecimalZeros (s : Str) : Str :=
+  let a := s.takeWhile (· != '.')
+  match s.dropWhile (· != '.') with
+  | _ :: frac => if !frac.isEmpty && frac.all (· == '0') then a else s
+  | [] => s
+
+def hasDoubleUs : Str → Bool
+  | a :: b :: t => (a == '_' && b == '_') || hasDoubleUs (b :: t)
+  | _ => false
+
+/-- `strip_underscores`: single underscores inside are removed; in any other arrangement the text stays as it is -/
+def stripUnderscores (s : Str) : Str :=
+  if s.head? == some '_' || s.getLast? == some '_' || !s.contains '_' || hasDoubleUs s then s
+  else s.filter (· != '_')
+
+/-- JSON integer without sign: `0` or a non-zero digit followed by digits -/
+def jsonNat (s : Str) : Option Nat :=
+  match s with
+  | [] => none
+  | c :: t =>
+    if !(c :: t).all Char.isDigit then none
+    else if c == '0' && !t.isEmpty then none
+    else parseDigits 10 0 false (c :: t)
+
+def jsonInt (s : Str) : Option Int :=
+  match s with
+  | '-' :: t => (jsonNat t).map (fun n => - Int.ofNat n)
+  | _ => (jsonNat s).map Int.ofNat
+
+/-- pydantic (lax mode) `str -> int` -/
+def parseLaxInt (s0 : Str) : Option Int :=
+  let s := strip s0
+  let plus := s.head? == some '+'
+  let s := if plus then s.drop 1 else s
+  if plus && s.head? == some '-' then none else
+  let neg := s.head? == some '-'
+  let s := if neg then s.drop 1 else s
+  if neg && (s.head? == some '-' || s.head? == some '+') then none else
+  match stripLeadingZeros s with
+  | none => none
+  | some s =>
+    let s := stripUnderscores (stripDecimalZeros s)
+    jsonInt (if neg then '-' :: s else s)
+
+/-! #### `int(x, 16)` (HexInt) -/
+
+def parseMag16 (s : Str) : Option Nat :=
+  let plain (s : Str) : Option Nat :=
+    match s with
+    | [] => none
+    | c :: _ => if c == '_' then none else parseDigits 16 0 false s
+  match s with
+  | '0' :: p :: rest =>
+    if p == 'x' || p == 'X' then (if rest.isEmpty then none else parseDigits 16 0 false rest) else plain s
+  | _ => plain s
+
+def parseHexInt (s : Str) : Option Int := withSign parseMag16 (strip s)
+
 def lower (s : Str) : Str := s.map Char.toLower
 
 def parseBoolStr (s : Str) : Option Bool :=
@@ -154,15 +251,6 @@ def parseBoolStr (s : Str) : Option Bool :=
   else none
 
 /-! ### ranges (`gallia.utils.unravel`, `unravel_2d`) -/
-
-def splitOn (sep : Char) (s : Str) : List Str :=
-  let (cur, acc) := s.foldr (fun c (p : Str × List Str) => if c == sep then ([], p.1 :: p.2) else (c :: p.1, p.2)) ([], [])
-  cur :: acc
-
-def intercalate (sep : Char) : List Str → Str
-  | [] => []
-  | [x] => x
-  | x :: xs => x ++ sep :: intercalate sep xs
 
 def insertSorted (x : Int) : List Int → List Int
   | [] => [x]
@@ -241,14 +329,45 @@ def enumLookup (members : List (Str × Int)) (a : Atom) : Option Int :=
       | some i => if members.any (·.2 == i) then some i else none
       | none => none
 
+/-- one `ID:START:LENGTH` / `ADDRESS:LENGTH` definition (`parse_definitions`): exactly `n` integers in `int(x, 0)`
+    notation separated by colons -/
+def parseTuple (n : Nat) (a : Atom) : Except Msg (List Int) :=
+  match a with
+  | .int _ => .error .wrongShape
+  | .str s =>
+    let parts := splitOn ':' s
+    if parts.length != n then .error .wrongCount
+    else match allSome (parts.map parseAutoInt) with
+      | some is => .ok is
+      | none => .error .notInt
+
+/-- validate the elements one after the other; the first one that fails decides the message -/
+def parseEach {α} (f : Atom → Except Msg α) : List Atom → Except Msg (List α)
+  | [] => .ok []
+  | a :: r => match f a with
+    | .error m => .error m
+    | .ok v => match parseEach f r with
+      | .error m => .error m
+      | .ok vs => .ok (v :: vs)
+
+def enumElem (ms : List (Str × Int)) (a : Atom) : Except Msg Int :=
+  match enumLookup ms a with | some v => .ok v | none => .error .notMember
+
+def boolInt (b : Bool) : Int := if b then 1 else 0
+
 def parse (k : Kind) (r : Raw) : Except Msg Val :=
   match k, r with
   | .bool, .bool b => .ok (.bool b)
   | .bool, .atom (.str s) => match parseBoolStr s with | some b => .ok (.bool b) | none => .error .notBool
   | .bool, .atom (.int i) => if i == 0 then .ok (.bool false) else if i == 1 then .ok (.bool true) else .error .notBool
   | .int, .atom (.int i) => .ok (.int i)
-  | .int, .atom (.str s) => match parseDecInt s with | some i => .ok (.int i) | none => .error .notInt
+  | .int, .atom (.str s) => match parseLaxInt s with | some i => .ok (.int i) | none => .error .notInt
+  | .int, .bool b => .ok (.int (boolInt b))          -- `bool` is an `int` for pydantic's lax mode (TOML `true`)
   | .autoInt, .atom (.int i) => .ok (.int i)
+  | .autoInt, .bool b => .ok (.int (boolInt b))      -- `isinstance(True, int)`
+  | .hexInt, .atom (.int i) => .ok (.int i)
+  | .hexInt, .bool b => .ok (.int (boolInt b))
+  | .hexInt, .atom (.str s) => match parseHexInt s with | some i => .ok (.int i) | none => .error .notInt
   | .autoInt, .atom (.str s) => match parseAutoInt s with | some i => .ok (.int i) | none => .error .notInt
   | .text, .atom (.str s) => .ok (.text s)
   | .text, .atom (.int _) => .error .notText
@@ -274,7 +393,11 @@ def parse (k : Kind) (r : Raw) : Except Msg Val :=
   | .autoInts, .list xs =>
     match allSome (xs.map atomAutoInt) with
     | some is => .ok (.ints is) | none => .error .notInt
-  | _, _ => .error .wrongShape
+  | .tuples n, .list xs => match parseEach (parseTuple n) xs with | .ok ts => .ok (.tuples ts) | .error m => .error m
+  | .enums ms, .list xs =>
+    match parseEach (enumElem ms) xs with
+    | .ok is => .ok (.ints is) | .error m => .error m
+  | _, _ => .error .wrongShape      -- e.g. a string for a list field, a list for `dict[str, Any]`
 
 /-! ### effective value of one option -/
 
@@ -290,16 +413,82 @@ def provided (f : Field) (r : Raw) : Except Msg Val :=
   | .flag => match f.const with | some c => .ok c | none => .error .noConst
   | r => parse f.kind r
 
-/-- only the winning provider's value reaches the validators; a value that does not validate is an error that
-    names that provider - it never falls through to the next provider -/
+/-- the input a validation error reports (`e["input"]`): the whole value, except for the kinds that are validated
+    element by element, where it is the first element that fails -/
+def reported (k : Kind) (r : Raw) : Raw :=
+  let firstBad (bad : Atom → Bool) (xs : List Atom) : Raw :=
+    match xs.find? bad with
+    | some a => .atom a
+    | none => r
+  match k, r with
+  | .autoInts, .list xs => firstBad (fun a => (atomAutoInt a).isNone) xs
+  | .enums ms, .list xs => firstBad (fun a => (enumLookup ms a).isNone) xs
+  | .tuples n, .list xs => firstBad (fun a => match parseTuple n a with | .ok _ => false | .error _ => true) xs
+  | _, _ => r
+
+/-- pydantic validates every element and lists every failure: all the inputs a rejection reports, in order -/
+def reportedAll (k : Kind) (r : Raw) : List Raw :=
+  let allBad (bad : Atom → Bool) (xs : List Atom) : List Raw :=
+    match xs.filter bad with
+    | [] => [r]
+    | bs => bs.map Raw.atom
+  match k, r with
+  | .autoInts, .list xs => allBad (fun a => (atomAutoInt a).isNone) xs
+  | .enums ms, .list xs => allBad (fun a => (enumLookup ms a).isNone) xs
+  | .tuples n, .list xs => allBad (fun a => match parseTuple n a with | .ok _ => false | .error _ => true) xs
+  | _, _ => [r]
+
+/-- `_validation_error`: the message says "default of <name> from <environment variable | config file>" when the
+    reported input *equals* the value taken from there, "argument --<name>" otherwise -/
+def blame (inp : Raw) (extra : Option (Source × Raw)) : Source :=
+  match extra with
+  | some (s, r) => if r == inp then s else .cli
+  | none => .cli
+
+/-- the providers named by the lines of one rejection message -/
+def blamedAll (k : Kind) (r : Raw) (extra : Option (Source × Raw)) : List Source :=
+  (reportedAll k r).map (fun i => blame i extra)
+
+/-- the argparse default of an option: positional arguments get none (`PydanticField.arg_default`) -/
+def offered (f : Field) (extra : Option (Source × Raw)) : Option (Source × Raw) :=
+  if f.positional then none else extra
+
+/-- only the winning provider's value reaches the validators; a value that does not validate is an error - it
+    never falls through to the next provider. The error names the provider `blame` finds -/
 def effective (f : Field) (cli env file : Option Raw) (dflt : Option Val) : Outcome :=
-  match argValue cli (extraDefault env file) with
+  let extra := extraDefault env file
+  match argValue cli (offered f extra) with
   | some (src, r) => match provided f r with
     | .ok v => .ok src v
-    | .error m => .rejected src m
+    | .error m => .rejected (blame (reported f.kind r) extra) m
   | none => match dflt with
     | some v => .ok .dflt v
     | none => .missing
+
+/-! ### one option through all layers: argv, environment, gallia.toml, default -/
+
+/-- what a value read from gallia.toml looks like to the validators -/
+def rawOfTree : Tree → Raw
+  | .leaf (.bool b) => .bool b
+  | .leaf (.int i) => .atom (.int i)
+  | .leaf (.str s) => .atom (.str s)
+  | .leaf (.arr l) => .list l
+  | .leaf (.flt t) => .opq t true            -- a TOML float is a float
+  | _ => .opq [] false                       -- tables, dates, nested arrays: no scalar or list field takes them
+
+structure OptDecl where
+  name : Str
+  field : Field
+  sect : Option Str            -- config section (of the field, else of its class); `none`: not file-configurable
+  configurable : Bool          -- declared with gallia's `Field()`: looked up in the environment and the file
+  deriving DecidableEq, Repr
+
+/-- `create_parser` + `parse_typed_args` for one option: the environment variable `GALLIA_<NAME>`, the key
+    `<section>.<name>` of the document, the command line and the default -/
+def resolveOption (o : OptDecl) (cli : Option Raw) (environ : Str → Option Str) (doc : Tree) (dflt : Option Val) : Outcome :=
+  let env := if o.configurable then (environ (envName o.name)).map (fun s => Raw.atom (.str s)) else none
+  let file := if o.configurable then (fileValue doc o.sect o.name).map rawOfTree else none
+  effective o.field cli env file dflt
 
 /-! ### stored configuration: `model_dump_json()` and `CONFIG_TYPE(**json.loads(...))` -/
 
@@ -310,6 +499,8 @@ inductive J
   | str (s : Str)
   | arr (l : List Int)
   | obj (m : List (Str × Option (List Int)))
+  | arrs (l : List (List Int))
+  | tree (t : Tree)                    -- an arbitrary JSON object (`dict[str, Any]`)
   deriving DecidableEq, Repr
 
 def showNat (n : Nat) : Str := (Nat.toDigits 10 n)
@@ -331,6 +522,8 @@ def dump : Val → J
   | .bytes b => .str (hexOf b)
   | .ints l => .arr l
   | .map m => .obj (m.map dumpEntry)
+  | .tuples l => .arrs l
+  | .dict t => .tree t
 
 def loadKey (s : Str) : Option Int := parseDecInt s
 
@@ -349,15 +542,47 @@ def load (f : Field) (j : J) : Except Msg Val :=
     | some kv => .ok (.map kv)
     | none => .error .wrongShape
   | .obj _, _ => .error .wrongShape
+  | .arrs l, .tuples n =>                   -- `parse_definitions` on a list: the length is checked, the items are taken
+    if l.all (fun t => t.length == n) then .ok (.tuples l) else .error .wrongCount
+  | .arrs _, _ => .error .wrongShape
+  | .tree t, .dict => if t.isTbl then .ok (.dict t) else .error .wrongShape
+  | .tree _, _ => .error .wrongShape
 
 /-- values a field of kind `k` can hold (the image of the validators) -/
 def WellTyped (f : Field) : Val → Prop
   | .none => f.optional = true
-  | .int i => f.kind = .int ∨ f.kind = .autoInt ∨ ∃ ms, f.kind = .enum ms ∧ ms.any (·.2 == i) = true
+  | .int i => f.kind = .int ∨ f.kind = .autoInt ∨ f.kind = .hexInt ∨ ∃ ms, f.kind = .enum ms ∧ ms.any (·.2 == i) = true
   | .bool _ => f.kind = .bool
   | .text s => f.kind = .text ∨ f.kind = .opaque ∨ ∃ cs, f.kind = .choice cs ∧ cs.contains s = true
   | .bytes _ => f.kind = .hexBytes
-  | .ints _ => f.kind = .ranges ∨ f.kind = .autoInts
+  | .ints l => f.kind = .ranges ∨ f.kind = .autoInts ∨ ∃ ms, f.kind = .enums ms ∧ l.all (fun i => ms.any (·.2 == i)) = true
   | .map _ => f.kind = .ranges2d
+  | .tuples l => ∃ n, f.kind = .tuples n ∧ l.all (fun t => t.length == n) = true
+  | .dict t => f.kind = .dict ∧ t.isTbl = true
+
+/-! ### a whole stored configuration -/
+
+/-- `model_dump_json()`: every field under its name -/
+def store (cfg : List (Str × Val)) : List (Str × J) := cfg.map (fun nv => (nv.1, dump nv.2))
+
+def lookupJ (n : Str) : List (Str × J) → Option J
+  | [] => none
+  | (k, j) :: r => if k == n then some j else lookupJ n r
+
+/-- `CONFIG_TYPE(**json.loads(stored))`: every field of the schema is validated from the stored value of its name; a
+    field the stored object lacks takes its default (`none`: required, so the reload fails) -/
+def reload (schema : List (Str × Field × Option Val)) (stored : List (Str × J)) : Except (Str × Msg) (List (Str × Val)) :=
+  match schema with
+  | [] => .ok []
+  | (n, f, d) :: rest =>
+    let v : Except (Str × Msg) Val :=
+      match lookupJ n stored with
+      | some j => (match load f j with | .ok v => .ok v | .error m => .error (n, m))
+      | none => (match d with | some v => .ok v | none => .error (n, .wrongShape))
+    match v with
+    | .error e => .error e
+    | .ok v => match reload rest stored with
+      | .error e => .error e
+      | .ok vs => .ok ((n, v) :: vs)
 
 end Gallia.Config
